@@ -82,7 +82,8 @@ claim("C14", "Lean 4 theorems (complete characterisation of the scan loop for an
       "Proved for the model: scan = the first non-rejected offset among 0..min(len-2,255) (scan_spec / scan_eq_scanRef); hence (1) up to 255 bytes of noise every offset of which is rejected, then a frame, yields exactly that frame "
       "with start = noise length, with a bytes-only sufficient condition per transport (…_resync); (2) no frame is ever reported after an offset that is not rejected (…_no_later, …_not_after); "
       "(3) 256 rejected offsets in a buffer of >= 257 bytes give an error, not 'incomplete' (…_gives_up), while <= 256 bytes of garbage give 'incomplete' by design (Props/C14.lean); "
-      "C14Full.lean: the same through the ADU decoders for every built value; C14Recv.lean: the receive loop drops exactly the noise and keeps the stream position.",
+      "C14Full.lean: the same through the ADU decoders for every built value; C14Recv.lean: the receive loop drops exactly the noise and keeps the stream position; "
+      "after fix a69a03c: tcp_attempt_rejects_bad_protocol / _bad_length and the bytes-only tcp_*_resync_stray (no two zero bytes at a noise offset's protocol-id position).",
       "Clause 3 is read with the buffer-length premise (>= 257 bytes): short garbage yields 'incomplete' by design and a unit test of the crate asserts it. RTU-request offsets whose function-code byte is 0x0F/0x10 are open finding D4.")
 
 claim("C01", "Lean 4 theorems (decoder on each layout, composition with the encoder equation and the packing theorems) + differential correspondence + round-trip oracle",
